@@ -69,6 +69,8 @@ Definition w_remove_column : list event := [EDoc (RemoveColumn T A)].
 Lemma w_remove_column_trace : leaves_trace w_ord w_doc w_remove_column 3 = true.
 Proof. vm_compute. reflexivity. Qed.
 Definition w_to_formula : list event := [EDoc (ModifyColumn T A (ColMod None (Some true) (Some 9) None))].
+Lemma w_to_formula_trace7 : leaves_trace w_ord w_doc w_to_formula 7 = true.
+Proof. vm_compute. reflexivity. Qed.
 Lemma w_to_formula_trace : forallb (leaves_trace w_ord w_doc w_to_formula) (seq 3 5) = true.
 Proof. vm_compute. reflexivity. Qed.
 
